@@ -59,7 +59,7 @@ Qed.
 
 Lemma strip_popw : forall p m l, strip_last_while p m l = rev (popw p m (rev l)).
 Proof.
-  intros. unfold strip_last_while. rewrite <- (lenN_rev l).
+  intros. unfold strip_last_while, rev'. rewrite <- !rev_alt. rewrite <- (lenN_rev l).
   rewrite pop_while_popw; [reflexivity|]. rewrite rev_length. lia.
 Qed.
 
